@@ -5458,27 +5458,31 @@ func (a *Agent) forwardShellClientData(streamID uint64, nextHop identity.AgentID
 			return // Adapter closed
 		}
 
-		// Encrypt data before sending
-		encryptedData, err := sessionKey.Encrypt(data)
-		if err != nil {
-			a.logger.Error("failed to encrypt shell client data",
-				logging.KeyStreamID, streamID,
-				logging.KeyError, err)
-			adapter.Close()
-			return
-		}
+		// Each encrypted message must fit into a single frame: split input
+		// that is too long into several messages of the same type.
+		for _, msg := range shell.SplitMessage(data, protocol.MaxPayloadSize-crypto.EncryptionOverhead) {
+			// Encrypt data before sending
+			encryptedData, err := sessionKey.Encrypt(msg)
+			if err != nil {
+				a.logger.Error("failed to encrypt shell client data",
+					logging.KeyStreamID, streamID,
+					logging.KeyError, err)
+				adapter.Close()
+				return
+			}
 
-		frame := &protocol.Frame{
-			Type:     protocol.FrameStreamData,
-			StreamID: streamID,
-			Payload:  encryptedData,
-		}
-		if err := a.peerMgr.SendToPeer(nextHop, frame); err != nil {
-			a.logger.Debug("shell client send error",
-				logging.KeyStreamID, streamID,
-				logging.KeyError, err)
-			adapter.Close()
-			return
+			frame := &protocol.Frame{
+				Type:     protocol.FrameStreamData,
+				StreamID: streamID,
+				Payload:  encryptedData,
+			}
+			if err := a.peerMgr.SendToPeer(nextHop, frame); err != nil {
+				a.logger.Debug("shell client send error",
+					logging.KeyStreamID, streamID,
+					logging.KeyError, err)
+				adapter.Close()
+				return
+			}
 		}
 	}
 }
